@@ -409,11 +409,18 @@ def scenarios(chk):
     neighbours_down = [["cat"], ["sort", "-nr", "i"], ["tac"], ["head", "-n", "2"], ["tee", "tee2.out"], ["put", "-q", "tee > $a.\".out\", $*"]]
     fail_verb = ["put", 'NR == 501 { int q = "abc" }']
     fail_verb2 = ["put", '$id == "r501" { $* = 3 }']
+    # with an early-exit verb downstream the reader may legitimately stop before record 501 is ever processed:
+    # there the failing record is the first one
+    fail_verb_first = ["put", '$id == "r1" { $* = 3 }']
     for up in [None] + neighbours_up:
         for down in [None] + neighbours_down:
             if q and rng.random() < 0.75:
                 continue
             fv = fail_verb if up is None else fail_verb2
+            if up is not None and up[0] == "head":
+                fv = ["put", '$id == "r600" { $* = 3 }']     # the last record head -n 600 lets through
+            if down is not None and down[0] == "head":
+                fv = fail_verb_first
             chain = ([up] if up else []) + [fv] + ([down] if down else [])
             argv = []
             for i, v in enumerate(chain):
